@@ -11,6 +11,8 @@ CPLX_KINDS = {
     'mul':    ('D = a * b;',        'r0 = A[2*i]*B[2*i] - A[2*i+1]*B[2*i+1]; r1 = A[2*i]*B[2*i+1] + A[2*i+1]*B[2*i];', False),
     'mixed':  ('D = a * b - a;',    'r0 = A[2*i]*B[2*i] - A[2*i+1]*B[2*i+1] - A[2*i]; r1 = A[2*i]*B[2*i+1] + A[2*i+1]*B[2*i] - A[2*i+1];', False),
     'sum3':   ('D = a + b + a;',    'r0 = A[2*i] + B[2*i] + A[2*i]; r1 = A[2*i+1] + B[2*i+1] + A[2*i+1];', False),
+    'conj':   ('D = conj(a);',      'r0 = A[2*i]; r1 = -A[2*i+1];', True),
+    'conjmix':('D = conj(a) + b;',  'r0 = A[2*i] + B[2*i]; r1 = -A[2*i+1] + B[2*i+1];', False),
     'iadd':   ('D += a;',           'r0 = R[2*i] + A[2*i]; r1 = R[2*i+1] + A[2*i+1];', True),
     'isub':   ('D -= a;',           'r0 = R[2*i] - A[2*i]; r1 = R[2*i+1] - A[2*i+1];', True),
     'imul':   ('D *= a;',           'r0 = R[2*i]*A[2*i] - R[2*i+1]*A[2*i+1]; r1 = R[2*i]*A[2*i+1] + R[2*i+1]*A[2*i];', False),
